@@ -108,7 +108,8 @@ fn gen_history(r: &mut Rng, len: usize, with_parse: bool) -> Vec<Op> {
         "https://www.w3.org/1999/xhtml", "http://www.w3.org/2000/svg", "x&y", "urn:A"];
     let mut ops = vec![];
     for _ in 0..len {
-        let k = r.below(100);
+        // in the histories that parse, one call in eight is a parse (half of them fail half-way)
+        let k = if with_parse && r.chance(1, 8) { 99 } else { r.below(100) };
         let s = if r.chance(1, 6) { random_text(r, 4) } else { random_ident(r) };
         let op = match k {
             0..=24 => {
@@ -132,7 +133,20 @@ fn gen_history(r: &mut Rng, len: usize, with_parse: bool) -> Vec<Op> {
             _ => {
                 let docs = ["<a/>", "<p:a xmlns:p='urn:a' q='1'><p:b/></p:a>", "<a xmlns='urn:b'><c d='e'/><?pi x?></a>",
                     "<x:y xmlns:x='urn:z' x:k='v'/>"];
-                Op::Parse(r.pick(&docs).to_string())
+                if r.chance(1, 2) {
+                    // a parse that FAILS after it has registered strings of its own (from the pool the other calls draw from):
+                    // whatever a failed parse leaves behind, ids handed out afterwards must still be one-to-one
+                    let (p, l1, l2, l3) = (random_ident(r), random_ident(r), random_ident(r), random_ident(r));
+                    let p = if p == "xml" { "pp".to_string() } else { p };
+                    Op::Parse(match r.below(4) {
+                        0 => format!("<{p}:{l1} xmlns:{p}='urn:{l2}'><{l3}></{l1}>"),
+                        1 => format!("<{l1} {l2}='1'><{l3}>"),
+                        2 => format!("<{l1}><{p}:{l2}/></{l1}>"),
+                        _ => format!("<{l1} xmlns:{p}='{l2}'><{p}:{l3} {p}:{l1}='v'/><{l3}></{l1}>"),
+                    })
+                } else {
+                    Op::Parse(r.pick(&docs).to_string())
+                }
             }
         };
         // learn the ids this op creates
